@@ -365,7 +365,7 @@ def _read_returns_section(
         text = dedent("\n".join(item[1:]))
         if annotation is None:
             # try to retrieve the annotation from the docstring parent
-            with suppress(AttributeError, KeyError, ValueError):
+            with suppress(AttributeError, IndexError, KeyError, ValueError):
                 if docstring.parent.is_function:  # type: ignore[union-attr]
                     annotation = docstring.parent.returns  # type: ignore[union-attr]
                 elif docstring.parent.is_attribute:  # type: ignore[union-attr]
@@ -470,7 +470,7 @@ def _read_receives_section(
         text = dedent("\n".join(item[1:]))
         if annotation is None:
             # try to retrieve the annotation from the docstring parent
-            with suppress(AttributeError, KeyError):
+            with suppress(AttributeError, IndexError, KeyError):
                 annotation = docstring.parent.returns  # type: ignore[union-attr]
                 if annotation.is_generator:
                     receives_item = annotation.slice.elements[1]
